@@ -3,6 +3,7 @@ import HpackVerif.Props.C04
 import HpackVerif.Props.C07
 import HpackVerif.Props.C02
 import HpackVerif.Props.C08
+import HpackVerif.Props.C05
 /-! # Property theorems restated on the translated source
 
 Each statement here composes a *tie* theorem (translated source = model, `Props.Src*`) with a *property* theorem (the model
@@ -109,5 +110,35 @@ theorem table_size_within_allowed (st : DecState) (hinv : Inv st.table) (hlim : 
   | esc x =>
     simp only [AgreeRun] at ha
     rw [hret] at ha; simp [dropS] at ha
+
+def excOf : DErr → Py.Exc
+  | .decoding => .hpackDecodingError
+  | .invalidIndex => .invalidTableIndex
+  | .invalidTableSize => .invalidTableSizeError
+  | .oversized => .oversizedHeaderListError
+
+/-- **C05 on the source — the first defect decides, whatever follows it**: if a list of well-formed representations fails
+at some representation under RFC 7541 (`interpPrefix`: a bad index, an update above the permitted maximum or after a field,
+a list over the limit, …), then the octets of that list followed by ANY octets at all are refused by the translated
+`Decoder.decode`, in both modes, with exactly the documented class of that defect, and the decoder the exception leaves
+behind stands for the context reached just before the defect -/
+theorem defect_decides (st : DecState) (h : Props.DecReach st) (hlim : st.listLimit < 10 ^ 4300) (rcs : List (RFC.Rep × RFC.Choice))
+    (hok : ∀ rc ∈ rcs, RFC.RepOK Gen.intCap rc.1 rc.2) (rest : Bytes) (e : DErr) (ctx : RFC.Ctx) (raw : Bool)
+    (hp : RFC.interpPrefix (RFC.abs st) (rcs.map (·.1)) [] 0 = .error (e, ctx)) :
+    ∃ f0, ∀ fuel, fuel ≥ f0 → ∃ st',
+      Src.Decoder.decode fuel (absD st) (RFC.blockOctets rcs ++ rest) raw = .error (excOf e, absD st') ∧ RFC.abs st' = ctx := by
+  obtain ⟨h1, h2⟩ := Props.C05.defect_decides st h rcs hok rest e ctx hp
+  obtain ⟨f0, hf⟩ := Props.SrcDec.decode_is_model st (RFC.blockOctets rcs ++ rest) raw (Props.decReach_inv h) hlim
+  refine ⟨f0, fun fuel hfu => ?_⟩
+  have ha := hf fuel hfu
+  unfold Cur.decode decodeApi at ha
+  generalize hm : Impl.decode Gen.intCap true st (RFC.blockOctets rcs ++ rest) = m at ha h1 h2
+  obtain ⟨r, st'⟩ := m
+  simp only at h1 h2
+  subst h1
+  simp only [AgreeRun] at ha
+  refine ⟨st', ?_, h2⟩
+  rw [ha]
+  cases e <;> rfl
 
 end Props.OnSourceDec
